@@ -154,6 +154,17 @@ impl Default for State {
     }
 }
 
+#[cfg(any(rust_cc_verif, kani))]
+impl State {
+    /// A fresh, idle state reporting `allocated_bytes` allocated bytes (verification kernels only).
+    #[inline]
+    pub(crate) fn verif_with_allocated(allocated_bytes: usize) -> Self {
+        let state = Self::new();
+        state.allocated_bytes.set(allocated_bytes);
+        state
+    }
+}
+
 /// Returns the number of objects buffered to be processed in the next collection.
 ///
 /// See [`Cc::mark_alive`][`crate::Cc::mark_alive`] for more details.
